@@ -171,6 +171,9 @@ func (g *gen) strct(depth int, path []string, underAlias bool, collect bool) ref
 				}
 				f := foreign[r.Intn(len(foreign))]
 				sf.Tag = reflect.StructTag(fmt.Sprintf(`%salias:"OLDX_%s"`, f, strings.ToUpper(name)))
+				if r.Chance(1, 2) {
+					sf.Tag += reflect.StructTag(fmt.Sprintf(` dials:"l_%s"`, strings.ToLower(name)))
+				}
 			} else if r.Chance(1, 5) {
 				sf.Tag = reflect.StructTag(fmt.Sprintf(`dials:"l_%s"`, strings.ToLower(name)))
 			}
